@@ -109,7 +109,7 @@ func TestWorker(t *testing.T) {
 	switch mode {
 	case "info":
 		sum.Info = map[string]interface{}{
-			"quick_runs": p.QuickRuns, "per_process": p.PerProcess, "rule": p.Rule, "level": p.Level,
+			"quick_runs": p.QuickRuns, "per_process": p.PerProcess, "rule": ruleText(p), "level": p.Level,
 			"assumptions": p.Assumptions, "real_vs_stub": p.RealVsStub, "probe_names": p.ProbeNames, "fault_names": p.FaultNames,
 		}
 	case "gen", "hash":
@@ -233,4 +233,11 @@ func TestWorker(t *testing.T) {
 	sort.Slice(sum.Keys, func(i, j int) bool { return sum.Keys[i] < sum.Keys[j] })
 	sum.WallMs = time.Since(start).Milliseconds()
 	emit(sum)
+}
+
+func ruleText(p *core.Prop) string {
+	if len(p.Added) == 0 {
+		return p.Rule
+	}
+	return p.Rule + " || added later: " + strings.Join(p.Added, "; ")
 }
